@@ -29,6 +29,7 @@ def run(ctx, repo):
     ctx.call(R6B.r_mapping_store_only, repo)
     XL.mapping_rules(ctx, repo)
     ctx.call(R6B.r_constructor_kind_checked, repo, ['loader.SafeLoader'])
+    ctx.call(R6B.r_pairs_from_nodes, repo)
 
 
 if __name__ == '__main__':
